@@ -100,6 +100,13 @@ Definition send_coins (from to : addr) (cs : list coin) (s : state) : lres state
   if negb (coins_valid cs) then LErr LBank else
   s' <- bank_sub_all from cs s ;; LOk (bank_add_all to cs s').
 
+(* bank's blocked-address list (app.go BlockAddresses): every module account except gov.  It is
+   consulted by SendCoinsFromModuleToAccount and by the bank MsgSend handler. *)
+Definition blocked_addr (a : addr) : bool := (101 <=? a)%N && (a <=? 104)%N.
+
+Definition send_coins_from_module_to_account (module to : addr) (cs : list coin) (s : state) : lres state :=
+  if blocked_addr to then LErr LBank else send_coins module to cs s.
+
 (* MintCoins to a module account with the minter permission *)
 Definition mint_coins (module : addr) (cs : list coin) (s : state) : lres state :=
   if negb (coins_valid cs) then LErr LBank else
